@@ -316,6 +316,8 @@ pub struct Core<I> {
     pub fault_fired: u32,
     pub spin_poll: u32,
     pub spin_count: u32,
+    pub calls_poll: u32,
+    pub calls_in_poll: u32,
     /// (op, number of choice points consumed when the call was made) for every call
     pub call_pos: Vec<(Op, u32)>,
     pub log: Rc<Log>,
@@ -344,6 +346,8 @@ impl<I> Core<I> {
             fault_fired: 0,
             spin_poll: 0,
             spin_count: 0,
+            calls_poll: u32::MAX,
+            calls_in_poll: 0,
             call_pos: Vec::new(),
             log,
         }
@@ -359,6 +363,19 @@ impl<I> Core<I> {
         });
     }
     fn faulty(&mut self, op: Op) -> bool {
+        // an unbounded loop over the transport inside ONE poll (of any operation, whatever it
+        // answers) becomes a finite observation instead of eating the machine
+        let p = self.log.poll_seq.get();
+        if self.calls_poll == p {
+            self.calls_in_poll += 1;
+            if self.calls_in_poll > 20_000 {
+                self.calls_in_poll = 0;
+                std::panic::panic_any(SpinGuard);
+            }
+        } else {
+            self.calls_poll = p;
+            self.calls_in_poll = 1;
+        }
         let idx = OPS.iter().position(|o| *o == op).unwrap();
         self.counts[idx] += 1;
         self.call_pos.push((op, self.log.choice_pos.get()));
